@@ -317,6 +317,55 @@ Theorem C13_swapped_publish_order_stops_on_request_refuted :
 Proof. exact swapped_order_stops_on_request. Qed.
 Print Assumptions C13_swapped_publish_order_stops_on_request_refuted.
 
+(* ---- the word as the rest of c2 uses it ---------------------------------------------------------- *)
+(* Session.close (either branch that the model covers) drops the request, its notice and the channel
+   mode: no notice outlives its request *)
+Theorem C13_close_drops_request :
+  forall server w, st_closing w = false ->
+    let w' := st_close server w in
+    st_channel w' = false /\ st_channel_value w' = false /\ st_channel_updated w' = false.
+Proof. exact close_drops_request. Qed.
+Print Assumptions C13_close_drops_request.
+
+(* any clear of (at least) ChannelValue | ChannelUpdated | Channel: afterwards a channel started by
+   the peer (Set Channel, possibly after other flag sets that do not raise a notice) is not stopped
+   by a stale notice -- the first ChannelCanStop answers "no stop" and writes nothing *)
+Theorem C13_no_stale_notice_after_teardown :
+  forall m w, Z.land m teardown_mask = teardown_mask ->
+    let w1 := st_unset w m in
+    st_channel w1 = false /\ st_channel_value w1 = false /\ st_channel_updated w1 = false /\
+    (forall s, Z.testbit s 10 = false -> let w2 := st_set (st_set w1 s) stateChannel in
+               st_closing w2 = false -> st_channel_can_stop w2 = (false, w2)).
+Proof. exact no_stale_notice_after_teardown. Qed.
+Print Assumptions C13_no_stale_notice_after_teardown.
+
+(* read from the CURRENT source of package c2 by atomics2v (every non-test file but state.go):
+   - no method with a value receiver writes the state word of its receiver (the write would land in a
+     copy: proxyClient / Session forward stateSet, stateUnset, ... to their state field);
+   - every statement list that clears ChannelValue through <x>.state.Unset clears ChannelUpdated and
+     Channel with it (gen_state_sites: flags cleared, flags set per statement list);
+   - Session.close has two such lists, both clearing all three (the masks of st_close). *)
+Theorem C13_no_value_receiver_writes_the_word :
+  gen_value_receiver_writers = 0.
+Proof. exact gen_no_value_receiver_writers. Qed.
+Print Assumptions C13_no_value_receiver_writes_the_word.
+
+Theorem C13_call_sites_drop_notice_with_request :
+  forallb site_ok gen_state_sites = true /\
+  (2 <=? Z.of_nat (length gen_session_close_sites)) &&
+  forallb (fun cs => Z.land (fst cs) teardown_mask =? teardown_mask) gen_session_close_sites = true.
+Proof. exact (conj gen_sites_drop_notice_with_request gen_close_sites_teardown). Qed.
+Print Assumptions C13_call_sites_drop_notice_with_request.
+
+Theorem C13_no_notice_outlives_its_request :
+  forall cs w, In cs gen_state_sites -> Z.land (fst cs) stateChannelValue <> 0 ->
+    let w1 := st_unset w (fst cs) in
+    st_channel_value w1 = false /\ st_channel_updated w1 = false /\
+    (forall s, Z.testbit s 10 = false -> let w2 := st_set (st_set w1 s) stateChannel in
+               st_closing w2 = false -> st_channel_can_stop w2 = (false, w2)).
+Proof. exact no_notice_outlives_its_request. Qed.
+Print Assumptions C13_no_notice_outlives_its_request.
+
 (* ---- regression: the load-then-store shape of the pinned tree LOSES updates -------------------- *)
 (* FULL STATEMENT THAT WAS FALSE before the repair (no_lost_update with old_call, the shapes
    atomics2v read from the pinned c2/state.go, in place of gen_call).  Refuted by the schedule
